@@ -4,3 +4,5 @@ set -e
 cd "$(dirname "$0")/.."
 mkdir -p build evidence replays
 bin/build.sh
+# warm the default toolchain's cache for the real-binary smoke of C07
+(cd "${VERIF_REPO:-/repo}" && GOFLAGS=-mod=mod GOPROXY=off GOSUMDB=off go build -o "$OLDPWD/build/taskctl-real" ./cmd/taskctl) || true
